@@ -1951,11 +1951,16 @@ func (m *repoManager) merge(parents []dvid.UUID, note string, mt MergeType) (dvi
 	default:
 		return dvid.NilUUID, ErrBadMergeType
 	}
+	seen := make(map[dvid.VersionID]struct{}, len(parents))
 	for _, parent := range parents {
 		v, err := m.versionFromUUID(parent)
 		if err != nil {
 			return dvid.NilUUID, err
 		}
+		if _, twice := seen[v]; twice {
+			return dvid.NilUUID, fmt.Errorf("version %s is listed twice among the parents of the merge", parent)
+		}
+		seen[v] = struct{}{}
 		r.RLock()
 		node, found := r.dag.nodes[v]
 		r.RUnlock()
